@@ -328,6 +328,8 @@ def e2e(chk, mods):
         evaluate(chk, mods, c)
     for fmt in E.MAP_FORMATS:
         evaluate(chk, mods, dict(REGRESSIONS[5], kind='fmt-' + fmt, map_fmt=fmt))
+    for c in E.sweep_cases(16 if not chk.thorough else 4):
+        evaluate(chk, mods, c)
     if chk.thorough:
         for c in E.snapshot_cases(chk.rng, mods, chk.scratch):
             evaluate(chk, mods, c)
